@@ -263,6 +263,16 @@ func runC14Catalogue(c *c14Case, st *stats, idx int) {
 			return
 		}
 		c.Errs = append(c.Errs, e)
+		// an acknowledged creation is listed as it was proposed (and acknowledged to the caller): id, dimension, metric,
+		// partition ids and replica assignment - on this node as on every other one applying the entry
+		if ch.Kind == "create" && e == "KNone" {
+			for _, m := range a.list() {
+				if m.Id == ch.Meta.Id && fmt.Sprint(m) != fmt.Sprint(ch.Meta) {
+					fail(fmt.Sprintf("entry %d created dataset %s as %v, the node that applied it lists %v", i, ch.Meta.Id, ch.Meta, m), "created-dataset-listed-differently")
+					return
+				}
+			}
+		}
 		// an acknowledged replica-set change is what every later listing (and snapshot) of the catalogue shows
 		if (ch.Kind == "add" || ch.Kind == "remove") && e == "KNone" {
 			for _, m := range a.list() {
